@@ -6,7 +6,12 @@
 set -eu
 D=/var/tmp/dev
 mkdir -p $D/out/target $D/repo
-git -C /repo archive HEAD | tar -x -C $D/repo
+# HEAD (plus DEV_PATCH=<file>: a seeded change / mutant tried on the private copy, never on /repo) is staged first and then
+# synchronised by checksum, so that exactly the files whose content changed get a new mtime (cargo decides by mtime)
+rm -rf $D/stage; mkdir -p $D/stage
+git -C /repo archive HEAD | tar -x -C $D/stage
+if [ -n "${DEV_PATCH:-}" ]; then (cd $D/stage && patch -p1 -s < "$DEV_PATCH") || { echo "patch failed"; exit 3; }; fi
+rsync -rlc --delete --exclude target $D/stage/ $D/repo/
 rsync -a --delete --exclude target /verif/harness/ $D/harness/
 find $D/harness -name '*.toml' | xargs sed -i "s#\"/repo/#\"$D/repo/#g; s#target-dir = \"/verif/target\"#target-dir = \"$D/target\"#"
 if [ ! -d $D/target/release ]; then mkdir -p $D/target; rsync -a --exclude tmp --exclude c12 /verif/target/release $D/target/; fi
